@@ -73,28 +73,39 @@ fn line_changes(patched_file: &PatchedFile) -> Vec<LineChange> {
     line_changes
 }
 
-/// Returns sorted character ranges in `new` that represent changes from `old`.
+/// Returns sorted, non-overlapping byte ranges in `new` that represent changes from `old`.
 fn line_diff(old: &str, new: &str) -> Vec<Range<usize>> {
     let mut result = Vec::new();
+    // The diff ops address characters, while the ranges (like all columns) are in bytes.
+    let mut byte_offsets: Vec<usize> = new.char_indices().map(|(offset, _)| offset).collect();
+    byte_offsets.push(new.len());
+    let byte_at = |char_index: usize| byte_offsets.get(char_index).copied().unwrap_or(new.len());
     let diff = similar::TextDiff::from_chars(old, new);
     let mut prev_op = None;
     for op in diff.ops() {
         match op {
             DiffOp::Delete { new_index, .. } => {
                 if prev_op.is_none_or(|c: &DiffOp| !matches!(c, DiffOp::Delete { .. })) {
-                    let idx = new.len().saturating_sub(1).min(*new_index);
-                    push_or_merge_range(&mut result, idx..idx + 1);
+                    let idx = (byte_offsets.len() - 1).saturating_sub(1).min(*new_index);
+                    let start = byte_at(idx);
+                    push_or_merge_range(&mut result, start..byte_at(idx + 1).max(start + 1));
                 }
             }
             DiffOp::Insert {
                 new_index, new_len, ..
             } => {
-                push_or_merge_range(&mut result, *new_index..(new_index + new_len));
+                push_or_merge_range(
+                    &mut result,
+                    byte_at(*new_index)..byte_at(new_index + new_len),
+                );
             }
             DiffOp::Replace {
                 new_index, new_len, ..
             } => {
-                push_or_merge_range(&mut result, *new_index..(new_index + new_len));
+                push_or_merge_range(
+                    &mut result,
+                    byte_at(*new_index)..byte_at(new_index + new_len),
+                );
             }
             DiffOp::Equal { .. } => {}
         }
